@@ -26,6 +26,7 @@ SCOPE = [
     ("lib/ext2fs/extent.c", ["ext2fs_extent_header_verify", "ext2fs_extent_get", "ext2fs_extent_open2"]),
     ("lib/ext2fs/dirblock.c", None),
     ("lib/ext2fs/rw_bitmaps.c", ["read_bitmaps_range_prepare", "read_bitmaps_range_start"]),
+    ("resize/resize2fs.c", ["calculate_minimum_resize_size"]),
     ("lib/ext2fs/dir_iterate.c", ["ext2fs_process_dir_block", "ext2fs_validate_entry", "ext2fs_inline_data_dir_iterate"]),
     ("lib/ext2fs/ext_attr.c", ["read_xattrs_from_buffer", "ext2fs_xattrs_read_inode", "ext2fs_ext_attr_block_rehash"]),
     ("lib/ext2fs/inline_data.c", None),
@@ -39,7 +40,8 @@ SCOPE = [
     ("e2fsck/pass2.c", ["check_dir_block", "parse_int_node", "salvage_directory", "check_dot", "check_dotdot"]),
     ("lib/ext2fs/swapfs.c", ["ext2fs_swap_ext_attr", "ext2fs_swap_inode_full"]),
 ]
-PROGRAM_OF = {"misc/e2undo.c": "e2undo", "debugfs/journal.c": "debugfs", "debugfs/htree.c": "debugfs", "debugfs/logdump.c": "debugfs"}
+PROGRAM_OF = {"misc/e2undo.c": "e2undo", "debugfs/journal.c": "debugfs", "debugfs/htree.c": "debugfs", "debugfs/logdump.c": "debugfs",
+              "resize/resize2fs.c": "resize2fs"}
 # dumpers of the same on-disk structures (debugfs read-only commands): judged by the absolute rule C06.c only
 BOUND_EXTRA = [("debugfs/htree.c", None), ("debugfs/logdump.c", None)]
 
@@ -302,6 +304,46 @@ def run(world, rep, tier, only=None):
                        "on failure and lie on every path to the stride" %
                        (n.text()[:40], n.line, sorted(stride_src)[:2], len(guards), sorted(rec_vars), sorted(bound_vars)))
     rep.floor("C06.f fast-commit record walkers", n_f, 3)
+    # the same for the walkers of a directory block in debugfs/htree.c: the stride is rec_len; it has to be at least
+    # the size of an entry header (the walk makes progress) and stay inside the block
+    n_g = 0
+    prog = world.program("debugfs", plain=True)
+    for fn in prog.fns_in_file("debugfs/htree.c"):
+        ft = taint.FnTaint(fn)
+        for n in fn.events("S"):
+            l = T.strip(n.ev["lhs"])
+            rhs = n.ev.get("rhs")
+            if not (isinstance(l, dict) and l.get("k") == "v" and isinstance(rhs, dict) and n.ev.get("o") == "+="):
+                continue
+            src = ft.sources(rhs)
+            if not any(s_.startswith("ext2_dir_entry.") for s_ in src) or l["n"] not in ft._index_vars():
+                continue        # (only what positions the next access: not, say, a print column)
+            hb = loop_head(fn, n)
+            if hb is None:
+                continue
+            n_g += 1
+            sv = T.vars_in(rhs)
+            body = loop_body(fn, hb)
+            lower = upper = False
+            for bid in fn.blocks:
+                end_ = fn.block_end(bid)
+                t_ = fn.blocks[bid].get("t")
+                if end_ not in body or not t_ or not isinstance(t_.get("c"), dict) or not fn.dominated_by(n, [end_]):
+                    continue
+                for x in T.walk(t_["c"]):
+                    if not (isinstance(x, dict) and x.get("k") == "b" and x.get("o") in ("<", "<=", ">", ">=")):
+                        continue
+                    if not (T.vars_in(x) & sv):
+                        continue
+                    small, big = (x.get("l"), x.get("r")) if x["o"] in ("<", "<=") else (x.get("r"), x.get("l"))
+                    if (T.vars_in(small) & sv) and (T.const(big) or 0) >= 1:
+                        lower = True        # rec_len < K: too small to be an entry
+                    if (T.vars_in(big) & sv) and (T.field_names(small) & {"blocksize"} or T.vars_in(small) & {"blocksize"}):
+                        upper = True        # offset + rec_len > blocksize
+            rep.ob("C06.f", site(fn, "directory walk validates rec_len before it strides by it"), lower and upper,
+                   "`%s` (line %d): a test rejects a rec_len too small for an entry: %s; one that runs past the block: %s" %
+                   (n.text()[:30], n.line, lower, upper))
+    rep.floor("C06.f directory-block walkers in debugfs/htree.c", n_g, 2)
 
     # C06.b cursor lifetime in the rbtree bitmap — shared with C16.b
     try:
